@@ -136,7 +136,17 @@ func (env *Env) resolveType(s string) (types.Type, error) {
 	// qualified names: pkg.Name where pkg is an import of the contract's package
 	tvv, err := types.Eval(env.e.P.Fset, env.pkg, token.NoPos, s)
 	if err != nil {
-		// try qualifying through imports by short name
+		// qualified names are visible in file scopes only: try each file of the package
+		if tp := env.e.P.TPkgs[env.pkg.Path()]; tp != nil {
+			for _, f := range tp.Syntax {
+				if v2, err2 := types.Eval(env.e.P.Fset, env.pkg, f.Name.End(), s); err2 == nil {
+					tvv, err = v2, nil
+					break
+				}
+			}
+		}
+	}
+	if err != nil {
 		return nil, fmt.Errorf("cannot resolve type %q: %v", s, err)
 	}
 	if !tvv.IsType() {
@@ -791,6 +801,13 @@ func (env *Env) evalCall(n *Call) (TV, error) {
 			if _, ok := e.P.Contracts.Funcs[pre+key]; ok {
 				full = pre + key
 				break
+			}
+		}
+		if full == "" && env.pkg != nil {
+			// unqualified: a function of the contract's own package
+			k2 := shortPkg(env.pkg.Path()) + "." + key
+			if _, ok := e.P.Contracts.Funcs[k2]; ok {
+				full = k2
 			}
 		}
 		if full == "" {
